@@ -261,10 +261,24 @@ bool walk_check(const cJSON *n, MVal *m, bool as_root, std::string &why) {
             if (mv_tolerate_dangling) goto key_done;
             return fail("owned key points at memory that is not a live block of the allocator (released?)");
         }
+        // memory-judging properties: a key the library treats as constant although it is neither the caller's key memory nor a live
+        // block is not read either (the library borrowed something that was released since)
+        if (mv_tolerate_dangling && (n->type & cJSON_StringIsConst) && !pool().owns(n->string) && dangling(n->string)) goto key_done;
         if (m->key != n->string) return fail(std::string("key is '") + n->string + "', model says '" + m->key + "'");
-        if (((n->type & cJSON_StringIsConst) != 0) != m->constkey) return fail(std::string("constant-key bit is ") + ((n->type & cJSON_StringIsConst) ? "set" : "clear"));
-        if (m->constkey && (m->keypool < 0 ? !pool().owns(n->string) : n->string != pool().get(m->keypool))) return fail("constant key does not point at the caller's key memory");
-        if (!m->constkey && pool().owns(n->string)) return fail("owned key points into caller memory");
+        if (((n->type & cJSON_StringIsConst) != 0) != m->constkey) {
+            if (mv_tolerate_dangling) {
+                // who owns the key is what these properties decide through the ledger and the sanitizer: follow the library's
+                // own bookkeeping instead of ending the run here
+                m->constkey = (n->type & cJSON_StringIsConst) != 0;
+                m->keypool = m->constkey ? pool().find(n->string) : -1;
+                goto key_done;
+            }
+            return fail(std::string("constant-key bit is ") + ((n->type & cJSON_StringIsConst) ? "set" : "clear"));
+        }
+        if (!mv_tolerate_dangling) {
+            if (m->constkey && (m->keypool < 0 ? !pool().owns(n->string) : n->string != pool().get(m->keypool))) return fail("constant key does not point at the caller's key memory");
+            if (!m->constkey && pool().owns(n->string)) return fail("owned key points into caller memory");
+        }
     }
 key_done:
     if (m->type == T_NUMBER) {
